@@ -1237,6 +1237,31 @@ theorem num_f64_variance_error (keep : Bool) (e : Nat) (he : e ≤ 480) (l : Lis
   intro r q n M G T
   exact ⟨var_acc_error keep e he l hne hn hl, fun h2 => variance_acc_error keep e he l h2 hn hl⟩
 
+/-- `num_f64_variance_error` FOR DATA OF ANY SCALE, small magnitudes included: the same statement for every power of two
+`M = 2^j / 2^1074 = 2^(j − 1074)` with `536 ≤ j ≤ 1554`, i.e. `2^-538 ≤ M ≤ 2^480` (e.g. `j = 1064`: samples within
+`±2^-10`), so the tolerance scales with the data (`u·M²`) down to the point where `8·M²` leaves the normal range.  The proof
+is the same run invariant; the magnitude class is abstracted as `MagClass M` (`0 ≤ M ≤ 2^1021`, `η ≤ M·u`, `K·8·M²` a float
+for every count `K ≤ 2^53`), `Proofs/C07NumF64Var.lean`. -/
+theorem num_f64_variance_error_scaled (keep : Bool) (j : Nat) (h1 : 536 ≤ j) (h2 : j ≤ 1554) (l : List F64) (hne : l ≠ [])
+    (hn : l.length ≤ 9007199254740992)
+    (hl : ∀ x ∈ l, x.isFinite = true ∧ -(((2 ^ j : Nat) : Rat) / F64.two1074) ≤ x.toRat ∧
+      x.toRat ≤ ((2 ^ j : Nat) : Rat) / F64.two1074) :
+    let r := runFv keep l
+    let q := l.map F64.toRat
+    let n : Rat := (l.length : Rat)
+    let M : Rat := ((2 ^ j : Nat) : Rat) / F64.two1074
+    let G := (15 * (n * (n + 1)) / 2 + 55 * n) * (M * (M * uF)) + 2 * n * F64.etaF
+    let T := G / (n - 1) + 16 * (M * M * uF) + F64.etaF
+    (r.variance.isFinite = true ∧ -(n * (8 * M * M)) ≤ r.variance.toRat ∧ r.variance.toRat ≤ n * (8 * M * M) ∧
+      r.variance.toRat - m2 q ≤ G ∧ m2 q - r.variance.toRat ≤ G) ∧
+    (2 ≤ l.length → r.varianceF.isFinite = true ∧
+      r.varianceF.toRat - sampleVariance q ≤ T ∧ sampleVariance q - r.varianceF.toRat ≤ T) ∧
+    F64.two1074 = ((2 ^ 1074 : Nat) : Rat) := by
+  intro r q n M G T
+  have hcls := magClass_scaled j h1 h2
+  exact ⟨var_acc_error_gen keep _ hcls l hne hn hl, fun h => variance_acc_error_gen keep _ hcls l h hn hl,
+    F64.two1074_eq⟩
+
 /-- Just outside the magnitude class of `num_f64_variance_error` (but inside that of `num_f64_mean_error`): for the two
 samples `2^600, −2^600` the mean is exactly 0, yet the product `(−2^601)·(−2^600)` overflows – `M2`, `Variance()` and
 `StdDev()` are `+Inf` (the exact `M2 = 2^1201` exceeds `MaxFloat64`): beyond the class there is no finite result to bound. -/
@@ -1406,6 +1431,10 @@ example : IsSortedF false [F64.nan, F64.zero true, F64.zero false, F64.ofInt 1] 
 example : (runFv false [F64.inf false, F64.inf false]).min = F64.inf false := by decide +kernel
 example : (runFv false [F64.neg maxF64, maxF64]).mean = F64.inf false := by decide +kernel
 example : inErrClass 0 [F64.ofRat (1/10), F64.ofRat (2/10), F64.ofRat (3/10)] = true := by decide +kernel
+/-- hypotheses of `num_f64_variance_error_scaled` with j = 1064 (M = 2^-10) on 0.0001, 0.0002, 0.0003. -/
+example : ∀ x ∈ [F64.ofRat (1/10000), F64.ofRat (2/10000), F64.ofRat (3/10000)],
+    x.isFinite = true ∧ -(((2 ^ 1064 : Nat) : Rat) / F64.two1074) ≤ x.toRat ∧
+      x.toRat ≤ ((2 ^ 1064 : Nat) : Rat) / F64.two1074 := by decide +kernel
 /-- hypotheses of `num_f64_stddev_error` on 1, 3, …, 15 (e = 4). -/
 example : (∀ x ∈ exInts8, x.isFinite = true ∧ -((2 ^ 4 : Nat) : Rat) ≤ x.toRat ∧ x.toRat ≤ ((2 ^ 4 : Nat) : Rat)) ∧
     0 < (runFv false exInts8).varianceF.toRat := by decide +kernel
